@@ -145,8 +145,113 @@ pub fn run(cfg: &Cfg, out: &mut Out) {
             let _ = konst::slice::get_range(&arr, i, 4);
             let _ = konst::slice::split_at(&z, i);
         }
-        let _ = konst::slice::as_chunks::<u16, 2>(&arr);
-        let _ = konst::slice::as_rchunks::<u16, 3>(&arr);
+        // results are USED (read / written through): under Miri's borrow tracking a reference built
+        // from a pointer with the wrong provenance is only reported when it is created or used
+        {
+            let (c, r) = konst::slice::as_chunks::<u16, 2>(&arr);
+            let (r2, c2) = konst::slice::as_rchunks::<u16, 3>(&arr);
+            let sum: u32 = c.iter().flatten().chain(r).chain(r2).chain(c2.iter().flatten()).map(|x| *x as u32).sum();
+            out.line("c01.miri_use", "0", &sum.to_string(), "-", "-");
+            let mut it = konst::slice::array_chunks::<u16, 2>(&arr);
+            let mut acc = 0u32;
+            while let Some((a, n)) = it.copy().next_back() {
+                acc += a[0] as u32 + n.remainder().iter().map(|x| *x as u32).sum::<u32>();
+                it = n;
+            }
+            out.line("c01.miri_use", "1", &acc.to_string(), "-", "-");
+            let mut m = [1u16, 2, 3, 4, 5, 6];
+            for i in [0usize, 1, 3, 6, 9, usize::MAX] {
+                let (a, b) = konst::slice::split_at_mut(&mut m, i);
+                if let Some(x) = a.first_mut() {
+                    *x += 1;
+                }
+                if let Some(x) = b.last_mut() {
+                    *x += 1;
+                }
+                let s = konst::slice::slice_from_mut(&mut m, i);
+                if let Some(x) = s.first_mut() {
+                    *x += 1;
+                }
+                let s = konst::slice::slice_up_to_mut(&mut m, i);
+                if let Some(x) = s.last_mut() {
+                    *x += 1;
+                }
+                let s = konst::slice::slice_range_mut(&mut m, 1, i);
+                if let Some(x) = s.first_mut() {
+                    *x += 1;
+                }
+                if let Some(s) = konst::slice::get_range_mut(&mut m, 1, i) {
+                    if let Some(x) = s.last_mut() {
+                        *x += 1;
+                    }
+                }
+                if let Some(x) = konst::slice::get_mut(&mut m, i) {
+                    *x += 1;
+                }
+            }
+            if let Some((f, rest)) = konst::slice::split_first_mut(&mut m) {
+                *f += rest.len() as u16;
+            }
+            if let Some((l, rest)) = konst::slice::split_last_mut(&mut m) {
+                *l += rest[0];
+            }
+            if let Some(x) = konst::slice::first_mut(&mut m) {
+                *x += 1;
+            }
+            if let Some(x) = konst::slice::last_mut(&mut m) {
+                *x += 1;
+            }
+            if let Ok(a) = konst::slice::try_into_array_mut::<u16, 6>(&mut m) {
+                a[2] += 1;
+            }
+            out.line("c01.miri_use", "2", &format!("{:?}", m), "-", "-");
+            // as_mut_slice of builder / consumer: written through
+            let mut b = konst::array::ArrayBuilder::<u32, 3>::new();
+            b.push(1);
+            b.push(2);
+            b.as_mut_slice()[1] += 5;
+            b.push(3);
+            let built = b.build();
+            let mut c = konst::array::ArrayConsumer::new([1u32, 2, 3]);
+            let _ = c.next();
+            c.as_mut_slice()[0] += 7;
+            let rest: Vec<u32> = c.as_slice().to_vec();
+            out.line("c01.miri_use", "3", &format!("{:?}{:?}", built, rest), "-", "-");
+            // ranges at the ends of every type (a step past the last item computes a value that is discarded)
+            use konst::iter::into_iter;
+            let mut n = 0u32;
+            let mut it = into_iter!(char::MAX..=char::MAX);
+            while let Some((x, ni)) = it.next() {
+                n += x as u32;
+                it = ni;
+            }
+            let mut it = into_iter!('\0'..='\u{1}').rev();
+            while let Some((x, ni)) = it.next() {
+                n += x as u32;
+                it = ni;
+            }
+            let mut it = into_iter!('\u{d7ff}'..='\u{e000}');
+            while let Some((x, ni)) = it.copy().next_back() {
+                n += x as u32;
+                it = ni;
+            }
+            let mut it = into_iter!(char::MAX..char::MAX);
+            if let Some((x, _)) = it.copy().next() {
+                n += x as u32;
+            }
+            let mut it = into_iter!(254u8..=255);
+            while let Some((x, ni)) = it.next() {
+                n += x as u32;
+                it = ni;
+            }
+            let mut it = into_iter!(i8::MIN..=i8::MIN + 1).rev();
+            while let Some((x, ni)) = it.next() {
+                n = n.wrapping_add(x as u32);
+                it = ni;
+            }
+            konst::iter::for_each! {x in u128::MAX - 1..=u128::MAX => n = n.wrapping_add(x as u32);}
+            out.line("c01.miri_use", "4", &n.to_string(), "-", "-");
+        }
         let s = "aé锈🧠";
         let mut it = kstr::chars(s);
         while let Some((_, n)) = it.next() {
@@ -156,6 +261,38 @@ pub fn run(cfg: &Cfg, out: &mut Out) {
         while let Some((_, n)) = ci.next() {
             ci = n;
         }
+        let mut acc = 0usize;
+        let mut it = kstr::chars(s);
+        let mut front = true;
+        loop {
+            let r = if front { it.copy().next() } else { it.copy().next_back() };
+            match r {
+                Some((c, n)) => {
+                    acc += c as usize + n.as_str().len();
+                    it = n;
+                    front = !front;
+                }
+                None => break,
+            }
+        }
+        let mut it = kstr::char_indices(s);
+        while let Some(((i, c), n)) = it.copy().next_back() {
+            acc += i + c as usize + n.as_str().len() + n.copy().rev().rev().as_str().len();
+            it = n;
+        }
+        for d in ["", "é", "-"] {
+            let mut sp = kstr::split(s, d);
+            while let Some((p, n)) = sp.copy().next() {
+                acc += p.len() + n.remainder().len();
+                sp = n;
+            }
+            let mut sp = kstr::rsplit(s, d);
+            while let Some((p, n)) = sp.copy().next() {
+                acc += p.len() + n.remainder().len();
+                sp = n;
+            }
+        }
+        out.line("c01.miri_use", "5", &acc.to_string(), "-", "-");
         let _ = konst::chr::encode_utf8('🧠').as_str().len();
         let _ = konst::chr::from_u32(0xD7FF);
         let m: [u32; 4] = konst::array::map!([1u32, 2, 3, 4], |x| x + 1);
